@@ -25,6 +25,8 @@ def body_text(body):
     """abstract body -> rule text"""
     if body['k'] == 'alias':
         return 'rule:' + body['n']
+    if body.get('text'):
+        return body['text']           # a prescribed spelling of the same meaning
     roles = sorted(body['r'])
     if not roles:
         return '!'
